@@ -30,12 +30,18 @@ class Chooser:
         self.used = {}
         self.enabled = enabled  # None = everything, else a set of labels
         self.suppress = set()   # labels temporarily forced to the canonical decision
+        self.force = {}         # label -> decision, temporarily forced (recorded as used)
         self.no_mixed_chain = False   # known finding: tag chains must be all-definite or all-indefinite
         self.suppressed = 0
 
     def pick(self, label, n):
         if n <= 1 or (self.enabled is not None and label not in self.enabled):
             return 0
+        if label in self.force:
+            r = self.force[label]
+            if r:
+                self.used[label] = self.used.get(label, 0) + 1
+            return r
         if label in self.suppress:
             self.suppressed += 1
             return 0
@@ -150,13 +156,24 @@ def tlv(tag, constructed, content, ch, label="len"):
     return enc_tag(tag, False) + enc_len(len(content)) + content
 
 
-def wrap(chain, constructed, content, ch):
+def wrap(chain, constructed, content, ch, is_string=False):
     """Apply a tag chain (outermost first) around content whose innermost TLV has the P/C bit given."""
     if not chain:
         return content
     uniform = len(chain) >= 2 and getattr(ch, "no_mixed_chain", False)
+    all_indef = False
     if uniform:
-        ch.suppress.add("indef")
+        # known finding ber.tagchain.mixed-definite-indefinite: the chain is either all definite or,
+        # when the innermost TLV is constructed, all indefinite
+        if is_string and constructed and getattr(ch, "no_indef_chain_on_strings", False):
+            ch.suppressed_indef_string_chain = getattr(ch, "suppressed_indef_string_chain", 0) + 1
+            all_indef = False
+        else:
+            all_indef = bool(constructed) and ch.pick("indef-chain", 2) == 1
+        if all_indef:
+            ch.force["indef"] = 1
+        else:
+            ch.suppress.add("indef")
     try:
         out = tlv(chain[-1], constructed, content, ch)
         for tag in reversed(chain[:-1]):
@@ -164,6 +181,7 @@ def wrap(chain, constructed, content, ch):
     finally:
         if uniform:
             ch.suppress.discard("indef")
+            ch.force.pop("indef", None)
     return out
 
 
@@ -403,15 +421,20 @@ def encode_chain(mod, t, chain, v, ch):
         out = content
         uniform = len(chain) >= 2 and getattr(ch, "no_mixed_chain", False)
         if uniform:
-            ch.suppress.add("indef")
+            if ch.pick("indef-chain", 2) == 1:
+                ch.force["indef"] = 1
+            else:
+                ch.suppress.add("indef")
         try:
             for tag in reversed(chain):
                 out = tlv(tag, True, out, ch)
         finally:
             if uniform:
                 ch.suppress.discard("indef")
+                ch.force.pop("indef", None)
         return out
-    return wrap(chain, constructed, content, ch)
+    from .model import STR_KINDS
+    return wrap(chain, constructed, content, ch, is_string=rt.kind in STR_KINDS or rt.kind in ("OCTETSTRING", "BITSTRING"))
 
 
 def encode(mod, t, v, ch=CANON):
